@@ -29,6 +29,16 @@ pub fn exec(it: &mut Interp, toks: &[&str], out: &mut Vec<String>) -> bool {
             }
             true
         }
+        ["bigarena", n, seed] => {
+            // implementation-vs-oracle only: an ontology far beyond 65 535 terms (the model's
+            // association list would be quadratic); every id of the id space is looked up
+            let (Ok(n), Ok(seed)) = (n.parse::<u32>(), seed.parse::<u64>()) else { return false };
+            match big_arena(n, seed) {
+                Ok(()) => out.push("oracle ok".to_string()),
+                Err(e) => out.push(format!("oracle FAIL bigarena: {e}")),
+            }
+            true
+        }
         ["same", a, bb] => {
             let (Some(oa), Some(ob)) = (
                 a.parse::<u32>().ok().and_then(|s| it.slots.get(&s)),
@@ -161,6 +171,59 @@ pub fn exec(it: &mut Interp, toks: &[&str], out: &mut Vec<String>) -> bool {
         }
         _ => crate::ext3::exec(it, toks, out),
     }
+}
+
+/// build `n` terms with sparse pseudo-random ids and check every lookup, iteration and len
+fn big_arena(n: u32, seed: u64) -> Result<(), String> {
+    use hpo::builder::Builder;
+    let mut rng = crate::rng::Rng::new(seed);
+    let mut ids: BTreeSet<u32> = BTreeSet::new();
+    ids.insert(1);
+    ids.insert(118);
+    while (ids.len() as u32) < n {
+        ids.insert(rng.below(10_000_000) as u32);
+    }
+    let mut order: Vec<u32> = ids.iter().copied().collect();
+    rng.shuffle(&mut order);
+    let mut b = Builder::new();
+    for id in &order {
+        b.new_term(&format!("t{id}"), *id);
+    }
+    let mut b = b.terms_complete();
+    b.add_parent(1u32, 118u32).map_err(|_| "add_parent failed".to_string())?;
+    let o = b
+        .connect_all_terms()
+        .calculate_information_content()
+        .map_err(|_| "ic failed".to_string())?
+        .build_with_defaults()
+        .map_err(|_| "build failed".to_string())?;
+    if o.len() != ids.len() {
+        return Err(format!("len() = {} after adding {} distinct ids", o.len(), ids.len()));
+    }
+    for id in 0u32..10_000_100 {
+        match o.hpo(id) {
+            Some(t) => {
+                if !ids.contains(&id) {
+                    return Err(format!("hpo({id}) resolves although it was never added"));
+                }
+                if t.id().as_u32() != id || t.name() != format!("t{id}") {
+                    return Err(format!("hpo({id}) returned term {} named {:?}", t.id(), t.name()));
+                }
+            }
+            None => {
+                if ids.contains(&id) {
+                    return Err(format!("hpo({id}) is None although the term was added"));
+                }
+            }
+        }
+    }
+    let r = std::panic::catch_unwind(std::panic::AssertUnwindSafe(|| o.iter().map(|t| t.id().as_u32()).collect::<Vec<u32>>()));
+    let Ok(v) = r else { return Err("iterating the ontology panics".to_string()) };
+    let set: BTreeSet<u32> = v.iter().copied().collect();
+    if v.len() != ids.len() || set != ids {
+        return Err(format!("iteration yields {} ids ({} distinct), expected {}", v.len(), set.len(), ids.len()));
+    }
+    Ok(())
 }
 
 fn tids(o: &Ontology) -> Vec<u32> {
